@@ -583,7 +583,7 @@ pub fn run(args: &Args) -> i32 {
     // the harness' own counters of interposed calls live in .data: excluded from the diff, judged separately
     let exclude = monitor_excludes();
     let mut snap: Vec<u8> = Vec::with_capacity(regions.total());
-    let max_len = if thorough { 4 } else { 3 };
+    let max_len = if thorough { 5 } else { 4 };
     // thorough: length-4 histories over a 16-op collision subset (65536) on top of all length<=3 histories
     let mut histories = 0u64;
     let mut steps = 0u64;
@@ -685,6 +685,27 @@ pub fn run(args: &Args) -> i32 {
                 break;
             }
         }
+        if max_len >= 5 {
+            // thorough: length-5 histories over the operations that touch lookups, searches and string parsing + ambient changes
+            let sub5: Vec<usize> = subset.iter().cloned().filter(|&k| ops[k].perturb || [0usize, 9, 16, 20].contains(&k) || ops[k].name.starts_with("default reader T") || ops[k].name.starts_with("failing reader")).collect();
+            let m5 = sub5.len();
+            for code in 0..m5.pow(5) {
+                h.clear();
+                let mut c = code;
+                for _ in 0..5 {
+                    h.push(sub5[c % m5]);
+                    c /= m5;
+                }
+                if ops[*h.last().unwrap()].perturb {
+                    continue;
+                }
+                reset_ambient();
+                run_history(&h, &rec);
+                if rec.saturated() {
+                    break;
+                }
+            }
+        }
     }
     rec.sub("histories", json!({"ops": n, "max_length": max_len, "histories": histories, "operation_executions": steps, "monitored_bytes_per_operation": regions.total(), "monitored_regions": regions.regs.iter().map(|r| format!("{} ({} bytes)", r.2, r.1)).collect::<Vec<_>>(), "distinct_result_digests": distinct_results.len()}));
     // monitor self-test: the monitors must see an injected static write, TLS write and getenv call (otherwise they are blind)
@@ -698,7 +719,7 @@ pub fn run(args: &Args) -> i32 {
     }
     rec.add(steps, histories - n as u64);
     rec.add_model(histories, steps, steps);
-    rec.set_rule("explored object = tree of operation histories (no deduplication possible: the subject exposes no state): every sequence of <= 3 steps over a 48-letter alphabet = 40 operations chosen to collide + 8 changes of ambient process state (current directory with decoy files, errno, TZ/TZDIR set at run time) (thorough: + all length-4 histories over a 23-letter subset); after every operation: result digest == run-alone digest (fresh process, 6 environments: TZ/TZDIR, decoy current directory, initial errno), no changed byte in .data/.bss/TLS of the executable, no getenv call, no file opened through a relative path, raw bytes of shared values unchanged. non-trivial = histories of length >= 2");
+    rec.set_rule("explored object = tree of operation histories (no deduplication possible: the subject exposes no state): every sequence of <= 3 steps over a 48-letter alphabet = 40 operations chosen to collide + 8 changes of ambient process state (current directory with decoy files, errno, TZ/TZDIR set at run time) + all length-4 histories over a 23-letter subset (thorough: + length 5 over 14 letters); after every operation: result digest == run-alone digest (fresh process, 6 environments: TZ/TZDIR, decoy current directory, initial errno), no changed byte in .data/.bss/TLS of the executable, no getenv call, no file opened through a relative path, raw bytes of shared values unchanged. non-trivial = histories of length >= 2");
     rec.set_exhaustive(true);
     rec.outcome(&format!("{} distinct results", distinct_results.len()));
     rec.outcome("run-alone");
